@@ -102,6 +102,7 @@ def run(ctx):
               "6 urgencies x 3 urgency comments, 0-2 extra key=value pairs (also in non-alphabetical order), change lines with "
               "non-ASCII / '#' / ':' / tabs / trailing blanks, blank lines inside and between blocks, leading blank lines, authors "
               "with empty or non-ASCII names, three date layouts; non-trivial = distinct texts", "%d texts" % rounds)
+    prev_text = None
     for _ in range(rounds):
         text, comps = gen_changelog(rng)
         for form in ("str", "lines", "lines+nl"):
@@ -133,6 +134,24 @@ def run(ctx):
                 break
         if t.fail:
             break
+        # parse_changelog's postcondition does not depend on what the object held before: a second parse into the
+        # same object must give the second text only
+        if prev_text is not None and rng.random() < 0.3:
+            try:
+                with warnings.catch_warnings():
+                    warnings.simplefilter("error")
+                    cl2 = real.Changelog(prev_text, strict=True)
+                    cl2.parse_changelog(text, strict=True)
+                out2 = str(cl2)
+            except Exception as e:
+                t.failed("second strict parse into the same object raised / warned: %r" % (e,), first=prev_text, text=text)
+                break
+            t.case(key=("reuse", prev_text, text))
+            if out2 != text or len(list(cl2)) != len(comps):
+                t.failed("a second parse_changelog() into the same object does not give the second text", first=prev_text,
+                         text=text, out=out2)
+                break
+        prev_text = text
         if len(t.samples) < 2:
             t.samples.append({"text": text})
     t.done()
